@@ -145,6 +145,7 @@ pub fn run(cfg: &Cfg) {
                         }
                         v.push(("Periodic:equal-ends".into(), Strat1::Spline(Bc::Periodic)));
                         v.push(("Periodic:unequal-ends".into(), Strat1::Spline(Bc::Periodic)));
+                        v.push(("Periodic:unequal-ends-first-lane".into(), Strat1::Spline(Bc::Periodic)));
                         v
                     };
                     // keep the quick tier's table to the rows where something can differ
@@ -157,6 +158,14 @@ pub fn run(cfg: &Cfg) {
                             r[n - 1] = r[0].clone();
                             let ll = lanes - 1;
                             r[n - 1][ll] += 1.0; // differs in one lane only
+                        }
+                        if stn == "Periodic:unequal-ends-first-lane" {
+                            if n >= 1 && lanes >= 2 {
+                                r[n - 1] = r[0].clone();
+                                r[n - 1][0] += 1.0; // differs in the FIRST lane only
+                            } else {
+                                continue;
+                            }
                         }
                         let wrong_rank = stn.contains("wrong-rank");
                         let sc = Scen1 { strat: st, ext: false, ax: ax.clone(), rows: r, trail: trail.clone(), queries: vec![] };
